@@ -25,7 +25,7 @@ def const_of(ctx, w):
 
 def run(tier, seed):
     V = common.Verdict("C09", tier, seed)
-    configs = ["K17"] if tier == "quick" else ["K17", "K20"]
+    configs = ["K17", "K20"] if tier == "quick" else ["K17", "K20"]
     info = {}
     for cfg in configs:
         try:
